@@ -139,6 +139,63 @@ type cutConn struct {
 	fullWrites int
 	first      int
 	fired      bool
+
+	// inbound TLS record framing (independent 5-byte header walk over the raw bytes)
+	rmu      sync.Mutex
+	hdr      []byte
+	skip     int
+	lastType byte
+	lastLen  int
+	records  int
+}
+
+func (c *cutConn) Read(b []byte) (int, error) {
+	n, err := c.TCPConn.Read(b)
+	c.rmu.Lock()
+	p := b[:n]
+	for len(p) > 0 {
+		if c.skip > 0 {
+			k := c.skip
+			if k > len(p) {
+				k = len(p)
+			}
+			c.skip -= k
+			p = p[k:]
+			if c.skip == 0 {
+				c.records++
+			}
+			continue
+		}
+		c.hdr = append(c.hdr, p[0])
+		p = p[1:]
+		if len(c.hdr) == 5 {
+			c.lastType, c.lastLen = c.hdr[0], int(c.hdr[3])<<8|int(c.hdr[4])
+			c.skip = c.lastLen
+			c.hdr = c.hdr[:0]
+			if c.skip == 0 {
+				c.records++
+			}
+		}
+	}
+	c.rmu.Unlock()
+	return n, err
+}
+
+// closeNotifySeen: the inbound stream ended on a record boundary and the last
+// record is an alert. crypto/tls reports io.EOF both for close_notify and for a
+// bare TCP close on a record boundary, so io.EOF alone proves nothing. TLS 1.2
+// shows the alert type in clear; a TLS 1.3 alert is the only record with a
+// 19-byte body (2 alert bytes + content type + 16 tag bytes) these servers send.
+func (c *cutConn) closeNotifySeen(version uint16) bool {
+	c.rmu.Lock()
+	defer c.rmu.Unlock()
+	if c.skip != 0 || len(c.hdr) != 0 || c.records == 0 {
+		return false
+	}
+	if version == tls.VersionTLS13 {
+		return c.lastType == 0x17 && c.lastLen == 19
+	}
+	return c.lastType == 0x15
 }
 
 func (c *cutConn) fireLocked() {
@@ -239,7 +296,7 @@ func drainRaw(c net.Conn, keep int) ([]byte, bool) {
 }
 
 // drainTLS reads application data until the connection ends; clean is true
-// when the server's close_notify arrived (crypto/tls returns io.EOF only then).
+// when crypto/tls reported io.EOF (close_notify or a TCP close on a record boundary).
 func drainTLS(tc *tls.Conn) (app int, clean bool) {
 	buf := make([]byte, 4096)
 	for {
@@ -445,13 +502,13 @@ func runCase(addr string, c *caseSpec, mid func()) *result {
 		if sess != nil && sess.Peer != nil {
 			sess.Peer.WaitEOF(watchdog)
 			evs := sess.Peer.Events()
-			if n := len(evs); n > 0 && evs[n-1].EOF && evs[n-1].ReadErr == "EOF" {
+			if n := len(evs); n > 0 && evs[n-1].EOF && evs[n-1].ReadErr == "EOF" && cc.closeNotifySeen(res.TLSVersion) {
 				res.CleanEOF = true
 			}
 		} else {
 			app, clean := drainTLS(tc)
 			res.AppBytes += app
-			res.CleanEOF = clean
+			res.CleanEOF = clean && cc.closeNotifySeen(res.TLSVersion)
 		}
 		tcp.Close()
 	case "rst":
@@ -527,6 +584,7 @@ func runAbort(c *caseSpec, res *result, cc *cutConn, tc *tls.Conn, tcp *net.TCPC
 		tcp.SetDeadline(time.Now().Add(watchdog))
 		if res.HsOK {
 			app, clean := drainTLS(tc)
+			clean = clean && cc.closeNotifySeen(res.TLSVersion)
 			res.AppBytes, res.CleanEOF = app, clean
 			if app > 0 || clean {
 				res.ServerDone = true
